@@ -129,6 +129,28 @@ class ExprMixin(object):
             out.heap[f] = Ite(sel, x, y)
         return out
 
+    def run_branch(self, fn, s):
+        """execute a branch; a construct outside the subset inside a branch that is infeasible under the current
+        assumptions (e.g. excluded by a precondition) does not make the function undecided"""
+        n_exits = len(self.frame().exits) if self.frames else 0
+        n_obl = len(self.obligations)
+        entry_guard = s.guard
+        try:
+            return fn(s)
+        except EngineError:
+            chk = z3.Solver()
+            chk.set('timeout', 5000)
+            for a in self.assumes:
+                chk.add(a)
+            chk.add(entry_guard)
+            if chk.check() != z3.unsat:
+                raise
+            if self.frames:
+                del self.frame().exits[n_exits:]
+            del self.obligations[n_obl:]
+            s.guard = z3.BoolVal(False)
+            return None
+
     def branch(self, st, cond, fn_then, fn_else):
         """Execute fn_then under cond and fn_else under not cond on copies of st; merge into st.
         Each fn takes a state and returns a value (or None).  Returns the merged value."""
@@ -143,8 +165,8 @@ class ExprMixin(object):
         sa.guard = And(st.guard, cond)
         sb = st.copy()
         sb.guard = And(st.guard, Not(cond))
-        va = fn_then(sa)
-        vb = fn_else(sb)
+        va = self.run_branch(fn_then, sa)
+        vb = self.run_branch(fn_else, sb)
         m = self.merge_states(cond, sa, sb)
         st.vars, st.heap, st.guard = m.vars, m.heap, m.guard
         if va is None and vb is None:
@@ -380,6 +402,23 @@ class ExprMixin(object):
                 f = self.find_special(container, '__contains__')
                 if f is not None and not isinstance(f, list):
                     return self.truthy(st, self.call_function(st, f, [container, item], {}, inline=True))
+                fi = self.find_special(container, '__iter__')
+                if fi is not None and not isinstance(fi, list):
+                    from .calls import func_ast
+                    fnode = func_ast(inspect.unwrap(fi))
+                    body = [b for b in fnode.body if not (isinstance(b, pyast.Expr) and isinstance(b.value, pyast.Constant))]
+                    if len(body) == 1 and isinstance(body[0], pyast.Return) and isinstance(body[0].value, pyast.Call) \
+                            and getattr(body[0].value.func, 'id', '') == 'iter' and len(body[0].value.args) == 1:
+                        # membership falls back to iteration:  x in obj  <=>  x in <what __iter__ iterates>
+                        s2 = State({fnode.args.args[0].arg: container}, dict(st.heap), st.guard)
+                        from .engine import Frame
+                        fr = Frame('<iter>', inspect.getmodule(fi), None)
+                        self.frames.append(fr)
+                        try:
+                            inner = self.eval(s2, body[0].value.args[0])
+                        finally:
+                            self.frames.pop()
+                        return self.contains(st, inner, item)
                 raise EngineError('`in` on object %r' % (h,))
             if h is not None and h.kind in ('list', 'tuple'):
                 raise EngineError('`in` on symbolic list needs a contract-level treatment')
@@ -787,7 +826,7 @@ class ExprMixin(object):
                 ci = self.const_int(idx)
                 es = es[ci] if ci is not None and -len(es) <= ci < len(es) else None
             if es is not None:
-                self.assume(st, es.assumption(t))
+                self.assume(st, self.spec_formula(st, es, t))
                 self.assume_class_invariants(st, t, es)
             self.known_ref(st, t)
             return V(t, es)
@@ -841,6 +880,10 @@ class ExprMixin(object):
             a = norm(lo, z3.IntVal(0))
             b = norm(hi, n)
             ln = z3.If(b > a, b - a, z3.IntVal(0))
+            if getattr(self, 'string_lemmas', False) and hi is None:
+                # valid instance: a string is its first a characters followed by s[a:]
+                self.assume(st, And(s == z3.Concat(z3.SubString(s, 0, a), z3.SubString(s, a, ln)),
+                                    z3.Length(z3.SubString(s, a, ln)) == ln, z3.SuffixOf(z3.SubString(s, a, ln), s)))
             return V(mkS(z3.SubString(s, a, ln)), parse_spec('str'))
         if h is not None and h.kind in ('list', 'tuple'):
             return self.list_slice(st, base, lo, hi)
